@@ -7,9 +7,9 @@ Local Open Scope Z_scope.
 
 Definition St2 := (list Z * list Z)%type.
 (* the shape of gen_set_bounded_u32 / _u64; c stands for 2*upper_bound-1 as the code computes it *)
-Definition bnd_sh (es : Z) (maskc : Z -> Z) (sub1 : Z -> Z -> Z) (stc1 : Z -> Z -> Z -> Z) (stcA : Z -> Z -> Z -> Z -> Z) (stA : Z -> Z -> Z)
+Definition bnd_sh (es : Z) (maskc : Z -> Z) (landk : Z -> Z -> (Z -> option St2) -> option St2) (sub1 : Z -> Z -> Z) (stc1k : Z -> Z -> Z -> (Z -> option St2) -> option St2) (stcA : Z -> Z -> Z -> Z -> Z) (stA : Z -> Z -> Z)
   (fuel : nat) (degree : Z) (_data : list Z) (mode_upper_bound : Z) (mode_amplifier : Z) (nmoduli : Z) (P : list Z) (tape : list Z) : option St2 :=
-  (let rnd := (@nil Z) in (let upper_bound_1 := mode_upper_bound in (let amplifier_2 := mode_amplifier in (bind (for_up 0 nmoduli 1 (fun cm_3 '(rnd, _data) => (bind (if (upper_bound_1 >=? (tabP P cm_3)) then None else Some (rnd, _data)) (fun '(rnd, _data) => Some (rnd, _data)))) (rnd, _data)) (fun '(rnd, _data) => (let rnd := (repeat 0 (Z.to_nat degree)) in (let '(rnd, tape) := rand_fill es rnd 0 (degree * es) tape in (let mask_bits_4 := 0 in (let v_5 := (uw 64 ((uw 64 (2 * upper_bound_1)) - 1)) in (bind (while_fuel fuel (fun '(rnd, _data, mask_bits_6, v_7) => (negb (v_7 =? 0))) (fun '(rnd, _data, mask_bits_6, v_7) => (bind (chk 32 (mask_bits_6 + 1)) (fun mask_bits_8 => (let v_9 := (v_7 / 2 ^ 1) in Some (rnd, _data, mask_bits_8, v_9))))) (rnd, _data, mask_bits_4, v_5)) (fun '(rnd, _data, mask_bits_10, v_11) => (bind (if (mask_bits_10 <? 64) then (bind (shl_u 64 1 mask_bits_10) (fun sh_12 => Some (uw 64 (sh_12 - 1)))) else Some (2 ^ 64 - 1 - 0)) (fun c_13 => (let mask_14 := maskc c_13 in (bind (if (amplifier_2 =? 1) then (bind (for_up 0 degree 1 (fun i_15 '(rnd, _data) => (bind (ld rnd (0 + i_15)) (fun ld_16 => (let tmp_17 := (Z.land ld_16 mask_14) in (bind (if (tmp_17 >=? (uw 64 ((uw 64 (2 * upper_bound_1)) - 1))) then (let tmp_18 := sub1 tmp_17 (uw 64 ((uw 64 (2 * upper_bound_1)) - 1)) in Some (rnd, _data, tmp_18)) else Some (rnd, _data, tmp_17)) (fun '(rnd, _data, tmp_19) => (bind (if (tmp_19 >=? upper_bound_1) then (bind (for_up 0 nmoduli 1 (fun cm_20 '(rnd, _data) => (bind (st _data (0 + (uw 64 ((uw 64 (degree * cm_20)) + i_15))) (stc1 (tabP P cm_20) tmp_19 (uw 64 ((uw 64 (2 * upper_bound_1)) - 1)))) (fun _data => Some (rnd, _data)))) (rnd, _data)) (fun '(rnd, _data) => Some (rnd, _data))) else (bind (for_up 0 nmoduli 1 (fun cm_21 '(rnd, _data) => (bind (st _data (0 + (uw 64 ((uw 64 (degree * cm_21)) + i_15))) tmp_19) (fun _data => Some (rnd, _data)))) (rnd, _data)) (fun '(rnd, _data) => Some (rnd, _data)))) (fun '(rnd, _data) => Some (rnd, _data))))))))) (rnd, _data)) (fun '(rnd, _data) => Some (rnd, _data))) else (bind (for_up 0 degree 1 (fun i_22 '(rnd, _data) => (bind (ld rnd (0 + i_22)) (fun ld_23 => (let tmp_24 := (Z.land ld_23 mask_14) in (bind (if (tmp_24 >=? (uw 64 ((uw 64 (2 * upper_bound_1)) - 1))) then (let tmp_25 := sub1 tmp_24 (uw 64 ((uw 64 (2 * upper_bound_1)) - 1)) in Some (rnd, _data, tmp_25)) else Some (rnd, _data, tmp_24)) (fun '(rnd, _data, tmp_26) => (bind (if (tmp_26 >=? upper_bound_1) then (bind (for_up 0 nmoduli 1 (fun cm_27 '(rnd, _data) => (bind (st _data (0 + (uw 64 ((uw 64 (degree * cm_27)) + i_22))) (stcA (tabP P cm_27) tmp_26 amplifier_2 (uw 64 ((uw 64 (2 * upper_bound_1)) - 1)))) (fun _data => Some (rnd, _data)))) (rnd, _data)) (fun '(rnd, _data) => Some (rnd, _data))) else (bind (for_up 0 nmoduli 1 (fun cm_28 '(rnd, _data) => (bind (st _data (0 + (uw 64 ((uw 64 (degree * cm_28)) + i_22))) (stA tmp_26 amplifier_2)) (fun _data => Some (rnd, _data)))) (rnd, _data)) (fun '(rnd, _data) => Some (rnd, _data)))) (fun '(rnd, _data) => Some (rnd, _data))))))))) (rnd, _data)) (fun '(rnd, _data) => Some (rnd, _data)))) (fun '(rnd, _data) => Some (rnd, _data))))))))))))))))).
+  (let rnd := (@nil Z) in (let upper_bound_1 := mode_upper_bound in (let amplifier_2 := mode_amplifier in (bind (for_up 0 nmoduli 1 (fun cm_3 '(rnd, _data) => (bind (if (upper_bound_1 >=? (tabP P cm_3)) then None else Some (rnd, _data)) (fun '(rnd, _data) => Some (rnd, _data)))) (rnd, _data)) (fun '(rnd, _data) => (let rnd := (repeat 0 (Z.to_nat degree)) in (let '(rnd, tape) := rand_fill es rnd 0 (degree * es) tape in (let mask_bits_4 := 0 in (let v_5 := (uw 64 ((uw 64 (2 * upper_bound_1)) - 1)) in (bind (while_fuel fuel (fun '(rnd, _data, mask_bits_6, v_7) => (negb (v_7 =? 0))) (fun '(rnd, _data, mask_bits_6, v_7) => (bind (chk 32 (mask_bits_6 + 1)) (fun mask_bits_8 => (let v_9 := (v_7 / 2 ^ 1) in Some (rnd, _data, mask_bits_8, v_9))))) (rnd, _data, mask_bits_4, v_5)) (fun '(rnd, _data, mask_bits_10, v_11) => (bind (if (mask_bits_10 <? 64) then (bind (shl_u 64 1 mask_bits_10) (fun sh_12 => Some (uw 64 (sh_12 - 1)))) else Some (2 ^ 64 - 1 - 0)) (fun c_13 => (let mask_14 := maskc c_13 in (bind (if (amplifier_2 =? 1) then (bind (for_up 0 degree 1 (fun i_15 '(rnd, _data) => (bind (ld rnd (0 + i_15)) (fun ld_16 => (landk ld_16 mask_14 (fun tmp_17 => (bind (if (tmp_17 >=? (uw 64 ((uw 64 (2 * upper_bound_1)) - 1))) then (let tmp_18 := sub1 tmp_17 (uw 64 ((uw 64 (2 * upper_bound_1)) - 1)) in Some (rnd, _data, tmp_18)) else Some (rnd, _data, tmp_17)) (fun '(rnd, _data, tmp_19) => (bind (if (tmp_19 >=? upper_bound_1) then (bind (for_up 0 nmoduli 1 (fun cm_20 '(rnd, _data) => (stc1k (tabP P cm_20) tmp_19 (uw 64 ((uw 64 (2 * upper_bound_1)) - 1)) (fun v => (bind (st _data (0 + (uw 64 ((uw 64 (degree * cm_20)) + i_15))) v) (fun _data => Some (rnd, _data)))))) (rnd, _data)) (fun '(rnd, _data) => Some (rnd, _data))) else (bind (for_up 0 nmoduli 1 (fun cm_21 '(rnd, _data) => (bind (st _data (0 + (uw 64 ((uw 64 (degree * cm_21)) + i_15))) tmp_19) (fun _data => Some (rnd, _data)))) (rnd, _data)) (fun '(rnd, _data) => Some (rnd, _data)))) (fun '(rnd, _data) => Some (rnd, _data)))))))))) (rnd, _data)) (fun '(rnd, _data) => Some (rnd, _data))) else (bind (for_up 0 degree 1 (fun i_22 '(rnd, _data) => (bind (ld rnd (0 + i_22)) (fun ld_23 => (landk ld_23 mask_14 (fun tmp_24 => (bind (if (tmp_24 >=? (uw 64 ((uw 64 (2 * upper_bound_1)) - 1))) then (let tmp_25 := sub1 tmp_24 (uw 64 ((uw 64 (2 * upper_bound_1)) - 1)) in Some (rnd, _data, tmp_25)) else Some (rnd, _data, tmp_24)) (fun '(rnd, _data, tmp_26) => (bind (if (tmp_26 >=? upper_bound_1) then (bind (for_up 0 nmoduli 1 (fun cm_27 '(rnd, _data) => (bind (st _data (0 + (uw 64 ((uw 64 (degree * cm_27)) + i_22))) (stcA (tabP P cm_27) tmp_26 amplifier_2 (uw 64 ((uw 64 (2 * upper_bound_1)) - 1)))) (fun _data => Some (rnd, _data)))) (rnd, _data)) (fun '(rnd, _data) => Some (rnd, _data))) else (bind (for_up 0 nmoduli 1 (fun cm_28 '(rnd, _data) => (bind (st _data (0 + (uw 64 ((uw 64 (degree * cm_28)) + i_22))) (stA tmp_26 amplifier_2)) (fun _data => Some (rnd, _data)))) (rnd, _data)) (fun '(rnd, _data) => Some (rnd, _data)))) (fun '(rnd, _data) => Some (rnd, _data)))))))))) (rnd, _data)) (fun '(rnd, _data) => Some (rnd, _data)))) (fun '(rnd, _data) => Some (rnd, _data))))))))))))))))).
 
 (* ---- column-wise filling of an m x n matrix stored row after row ---- *)
 Section Matrix.
@@ -97,8 +97,9 @@ Hypothesis Hbits8 : bits = 8 * Z.of_nat wb.
 Hypothesis Hes : (0 < wb)%nat.
 Hypothesis Hbits : bits <= 64.
 Variable maskc : Z -> Z.
+Variable landk : Z -> Z -> (Z -> option St2) -> option St2.
 Variable sub1 : Z -> Z -> Z.
-Variable stc1 : Z -> Z -> Z -> Z.
+Variable stc1k : Z -> Z -> Z -> (Z -> option St2) -> option St2.
 Variable stcA : Z -> Z -> Z -> Z -> Z.
 Variable stA : Z -> Z -> Z.
 Variables (n m : nat) (P tape data0 : list Z) (B A : Z).
@@ -108,7 +109,8 @@ Hypothesis HB : 1 <= B.
 Hypothesis Hc : c < 2 ^ (bits - 1).
 Hypothesis Hmaskc : maskc (uw 64 (uw 64 (1 * 2 ^ b) - 1)) = 2 ^ b - 1.
 Hypothesis Hsub1 : forall t, c <= t < 2 ^ bits -> sub1 t c = t - c.
-Hypothesis Hstc1 : A = 1 -> forall p t, stc1 p t c = ((p + t * A - c * A) mod 2 ^ 64) mod 2 ^ bits.
+Hypothesis Hlandk : forall l k, 0 <= l < 2 ^ bits -> landk l (2 ^ b - 1) k = k (Z.land l (2 ^ b - 1)).
+Hypothesis Hstc1k : A = 1 -> forall p t k, 0 <= p < 2 ^ bits -> 0 <= t < 2 ^ bits -> stc1k p t c k = k (((p + t * A - c * A) mod 2 ^ 64) mod 2 ^ bits).
 Hypothesis HstcA : forall p t, stcA p t A c = ((p + t * A - c * A) mod 2 ^ 64) mod 2 ^ bits.
 Hypothesis HstA : forall t, stA t A = ((t * A) mod 2 ^ 64) mod 2 ^ bits.
 Hypothesis HPl : (m <= length P)%nat.
@@ -166,6 +168,19 @@ Proof.
   { rewrite (uw_small 64 (Z.of_nat n * Z.of_nat cm)) by nia. rewrite uw_small by nia. nia. }
   rewrite Eidx. rewrite st_some by (rewrite tgt_length; nia). cbn [bind]. rewrite Nat2Z.id. rewrite (HV cm Hcm). rewrite (tgt_step n m Hn T data0 Hd i cm Hcm Hi). reflexivity.
 Qed.
+(* the same with a store whose value comes through a continuation (16-bit limbs: a checked int sum first) *)
+Lemma column_loop_k i (F : Z -> (Z -> option St2) -> option St2) : (i < n)%nat -> (forall cm k, (cm < m)%nat -> F (Z.of_nat cm) k = k (T cm i)) ->
+  for_up 0 (Z.of_nat m) 1 (fun cm '(rnd, _data) => F cm (fun v => (bind (st _data (0 + (uw 64 ((uw 64 (Z.of_nat n * cm)) + Z.of_nat i))) v) (fun _data => Some (rnd, _data))))) (ws, tgt n m T data0 i 0)
+  = Some (ws, tgt n m T data0 i m).
+Proof.
+  intros Hi HV. assert (Hm61 : Z.of_nat m < 2 ^ 61) by nia.
+  rewrite (for_up_steps (fun cm : nat => (ws, tgt n m T data0 i cm)) m); try lia; [reflexivity|].
+  intros cm Hcm. replace (0 + 1 * Z.of_nat cm) with (Z.of_nat cm) by lia. cbv beta iota. rewrite (HV cm _ Hcm).
+  assert (Eidx : 0 + uw 64 (uw 64 (Z.of_nat n * Z.of_nat cm) + Z.of_nat i) = Z.of_nat (n * cm + i)).
+  { rewrite (uw_small 64 (Z.of_nat n * Z.of_nat cm)) by nia. rewrite uw_small by nia. nia. }
+  rewrite Eidx. rewrite st_some by (rewrite tgt_length; nia). cbn [bind]. rewrite Nat2Z.id. rewrite (tgt_step n m Hn T data0 Hd i cm Hcm Hi). reflexivity.
+Qed.
+
 Hypothesis HPr : Forall (fun p => 0 <= p < 2 ^ bits) (firstn m P).
 Lemma ws_rng i : (i < n)%nat -> 0 <= nth i ws 0 < 2 ^ bits.
 Proof.
@@ -174,9 +189,9 @@ Proof.
 Qed.
 
 (* the loop over the coefficients, for a given pair of store functions (the two branches on the amplifier) *)
-Lemma main_loop (fc : Z -> Z -> Z) (fn : Z -> Z) :
-  (forall p t, fc p t = ((p + t * A - c * A) mod 2 ^ 64) mod 2 ^ bits) -> (forall t, 0 <= t < 2 ^ bits -> fn t = ((t * A) mod 2 ^ 64) mod 2 ^ bits) ->
-  for_up 0 (Z.of_nat n) 1 (fun i_15 '(rnd, _data) => (bind (ld rnd (0 + i_15)) (fun ld_16 => (let tmp_17 := (Z.land ld_16 (2 ^ b - 1)) in (bind (if (tmp_17 >=? (uw 64 ((uw 64 (2 * B)) - 1))) then (let tmp_18 := sub1 tmp_17 (uw 64 ((uw 64 (2 * B)) - 1)) in Some (rnd, _data, tmp_18)) else Some (rnd, _data, tmp_17)) (fun '(rnd, _data, tmp_19) => (bind (if (tmp_19 >=? B) then (bind (for_up 0 (Z.of_nat m) 1 (fun cm_20 '(rnd, _data) => (bind (st _data (0 + (uw 64 ((uw 64 (Z.of_nat n * cm_20)) + i_15))) (fc (tabP P cm_20) tmp_19)) (fun _data => Some (rnd, _data)))) (rnd, _data)) (fun '(rnd, _data) => Some (rnd, _data))) else (bind (for_up 0 (Z.of_nat m) 1 (fun cm_21 '(rnd, _data) => (bind (st _data (0 + (uw 64 ((uw 64 (Z.of_nat n * cm_21)) + i_15))) (fn tmp_19)) (fun _data => Some (rnd, _data)))) (rnd, _data)) (fun '(rnd, _data) => Some (rnd, _data)))) (fun '(rnd, _data) => Some (rnd, _data))))))))) (ws, data0)
+Lemma main_loop (fck : Z -> Z -> (Z -> option St2) -> option St2) (fn : Z -> Z) :
+  (forall p t k, 0 <= p < 2 ^ bits -> 0 <= t < 2 ^ bits -> fck p t k = k (((p + t * A - c * A) mod 2 ^ 64) mod 2 ^ bits)) -> (forall t, 0 <= t < 2 ^ bits -> fn t = ((t * A) mod 2 ^ 64) mod 2 ^ bits) ->
+  for_up 0 (Z.of_nat n) 1 (fun i_15 '(rnd, _data) => (bind (ld rnd (0 + i_15)) (fun ld_16 => (landk ld_16 (2 ^ b - 1) (fun tmp_17 => (bind (if (tmp_17 >=? (uw 64 ((uw 64 (2 * B)) - 1))) then (let tmp_18 := sub1 tmp_17 (uw 64 ((uw 64 (2 * B)) - 1)) in Some (rnd, _data, tmp_18)) else Some (rnd, _data, tmp_17)) (fun '(rnd, _data, tmp_19) => (bind (if (tmp_19 >=? B) then (bind (for_up 0 (Z.of_nat m) 1 (fun cm_20 '(rnd, _data) => (fck (tabP P cm_20) tmp_19 (fun v => (bind (st _data (0 + (uw 64 ((uw 64 (Z.of_nat n * cm_20)) + i_15))) v) (fun _data => Some (rnd, _data)))))) (rnd, _data)) (fun '(rnd, _data) => Some (rnd, _data))) else (bind (for_up 0 (Z.of_nat m) 1 (fun cm_21 '(rnd, _data) => (bind (st _data (0 + (uw 64 ((uw 64 (Z.of_nat n * cm_21)) + i_15))) (fn tmp_19)) (fun _data => Some (rnd, _data)))) (rnd, _data)) (fun '(rnd, _data) => Some (rnd, _data)))) (fun '(rnd, _data) => Some (rnd, _data)))))))))) (ws, data0)
   = Some (ws, tgt n m T data0 n 0).
 Proof.
   intros Hfc Hfn. pose proof b_range as Hb. pose proof c_lt_pow_b as Hcb. pose proof c_pos as Hc1.
@@ -186,6 +201,7 @@ Proof.
   intros i Hi. replace (0 + 1 * Z.of_nat i) with (Z.of_nat i) by lia. cbv beta iota.
   replace (0 + Z.of_nat i) with (Z.of_nat i) by lia. rewrite ld_some by (rewrite ws_len; lia). rewrite Nat2Z.id. cbn [bind]. cbv zeta.
   rewrite cc_eq. pose proof (ws_rng i Hi) as Rw. set (x := nth i ws 0) in *.
+  rewrite Hlandk by exact Rw. cbv beta.
   rewrite land_mask_mod' by lia.
   pose proof (Z.mod_pos_bound x (2 ^ b) ltac:(apply Z.pow_pos_nonneg; lia)) as Rm.
   assert (Hpb : 2 ^ b <= 2 ^ bits) by (apply Z.pow_le_mono_r; lia).
@@ -197,9 +213,13 @@ Proof.
   { unfold t, bnd_tmp. cbv zeta. fold c. destruct (Z.geb_spec (x mod 2 ^ b) c); lia. }
   assert (ET : forall cm, T cm i = bnd_store_amp bits (nth cm P 0) B A t) by (intros cm; unfold T; fold x; reflexivity).
   destruct (Z.geb_spec t B) as [Hge|Hlt].
-  - rewrite (column_loop i (fun cm => fc (tabP P cm) t) Hi).
+  - rewrite (column_loop_k i (fun cm => fck (tabP P cm) t) Hi).
     + cbn [bind]. rewrite (tgt_row n m Hn T data0 Hd i). reflexivity.
-    + intros cm Hcm. cbv beta. unfold tabP. rewrite Nat2Z.id. rewrite ET, Hfc. unfold bnd_store_amp. fold c.
+    + intros cm k Hcm. cbv beta. unfold tabP. rewrite Nat2Z.id. rewrite ET.
+      assert (Hp : 0 <= nth cm P 0 < 2 ^ bits).
+      { assert (E : nth cm P 0 = nth cm (firstn m P) 0) by (rewrite nth_firstn; replace (cm <? m)%nat with true by (symmetry; apply Nat.ltb_lt; exact Hcm); reflexivity).
+        rewrite E. apply (Forall_nth_R (fun p => 0 <= p < 2 ^ bits) (firstn m P) cm HPr). rewrite firstn_length. lia. }
+      rewrite Hfc by (try exact Hp; exact Rt). unfold bnd_store_amp. fold c.
       replace (t >=? B) with true by (symmetry; apply Z.geb_le; lia). reflexivity.
   - rewrite (column_loop i (fun cm => fn t) Hi).
     + cbn [bind]. rewrite (tgt_row n m Hn T data0 Hd i). reflexivity.
@@ -222,7 +242,7 @@ Proof.
 Qed.
 
 Theorem bounded_ok fuel : (Z.to_nat b < fuel)%nat -> 0 <= A < 2 ^ 64 -> Forall (fun p => B < p) (firstn m P) ->
-  bnd_sh (Z.of_nat wb) maskc sub1 stc1 stcA stA fuel (Z.of_nat n) data0 B A (Z.of_nat m) P tape =
+  bnd_sh (Z.of_nat wb) maskc landk sub1 stc1k stcA stA fuel (Z.of_nat n) data0 B A (Z.of_nat m) P tape =
   Some (ws, concat (map (fun p => map (fun x => bnd_store_amp bits p B A (bnd_tmp b B x)) ws) (firstn m P))).
 Proof.
   intros Hf HA HBp. unfold bnd_sh. cbv zeta. pose proof b_range as Hb.
@@ -244,13 +264,13 @@ Proof.
   unfold shl_u. destruct (Z.leb_spec 0 b); [|lia]. destruct (Z.ltb_spec b 64); [|lia]. cbn [andb bind].
   rewrite Hmaskc.
   destruct (Z.eqb_spec A 1) as [HA1|HA1].
-  - pose proof (main_loop (fun p t => stc1 p t c) (fun t => t)) as ML. cbv zeta beta in ML. rewrite cc_eq in ML. rewrite ML; clear ML.
+  - pose proof (main_loop (fun p t k => stc1k p t c k) (fun t => t)) as ML. cbv zeta beta in ML. rewrite cc_eq in ML. rewrite ML; clear ML.
     + cbn [bind]. rewrite final_list. reflexivity.
-    + intros p t. apply Hstc1. exact HA1.
+    + intros p t k Hp Ht. apply Hstc1k; assumption.
     + intros t Rt. rewrite HA1, Z.mul_1_r. assert (2 ^ bits <= 2 ^ 64) by (apply Z.pow_le_mono_r; lia). rewrite (Z.mod_small t (2 ^ 64)) by lia. rewrite Z.mod_small by lia. reflexivity.
-  - pose proof (main_loop (fun p t => stcA p t A c) (fun t => stA t A)) as ML. cbv zeta beta in ML. rewrite cc_eq in ML. rewrite ML; clear ML.
+  - pose proof (main_loop (fun p t k => k (stcA p t A c)) (fun t => stA t A)) as ML. cbv zeta beta in ML. rewrite cc_eq in ML. rewrite ML; clear ML.
     + cbn [bind]. rewrite final_list. reflexivity.
-    + intros p t. apply HstcA.
+    + intros p t k Hp Ht. rewrite HstcA. reflexivity.
     + intros t Rt. apply HstA.
 Qed.
 End Bounded.
@@ -266,9 +286,9 @@ Proof.
     { intros j' Hj'. apply not_true_is_false. intros HT. assert (existsb Q (seq 0 m) = true) by (apply existsb_exists; exists j'; split; [apply in_seq; lia | exact HT]). congruence. }
     split; [|exact Hall]. destruct (Nat.eq_dec j m) as [->|Hne]; [exact HQ|]. rewrite Hall in HQ by lia. discriminate.
 Qed.
-Theorem bounded_throws es maskc sub1 stc1 stcA stA fuel n (data0 : list Z) B A m P tape : Z.of_nat m < 2 ^ 61 ->
+Theorem bounded_throws es maskc landk sub1 stc1k stcA stA fuel n (data0 : list Z) B A m P tape : Z.of_nat m < 2 ^ 61 ->
   (exists cm, (cm < m)%nat /\ nth cm P 0 <= B) ->
-  bnd_sh es maskc sub1 stc1 stcA stA fuel n data0 B A (Z.of_nat m) P tape = None.
+  bnd_sh es maskc landk sub1 stc1k stcA stA fuel n data0 B A (Z.of_nat m) P tape = None.
 Proof.
   intros Hm Hex. unfold bnd_sh. cbv zeta.
   destruct (first_index (fun cm => B >=? nth cm P 0) m) as (j0 & Hj0 & HQ & Hbefore).
